@@ -17,8 +17,8 @@ func init() {
 		ID:    "C08",
 		Title: "Criteria mean the same with or without indexes and pruning",
 		Decides: "the Bloom filter probes the same (word, bit) sequence when adding and when testing an item (canonical SSA expressions of the probe index, the mask and the probe count are equal); part pruning by time / key range discards a part exactly when its range is disjoint from the query range, over every ordering of the four endpoints; " +
-			"every place that dispatches on a criteria operator handles the same operator set (index filter builders, in-scan tag filters, inverted-index query builder, secondary-index tag filter); the trace-id part filter skips a part only when no requested id may be contained; block/primary-block time bounds are maintained as running min/max against their own accumulator, and a function that re-arms an accumulator's first-value guard also resets or consumes that accumulator (a part-level range is not restarted per primary block).",
-		NotDecided: "that the rows selected are exactly those satisfying the predicate, analyzer/tokenizer semantics of the inverted index, binary search boundaries inside part iterators.",
+			"every place that dispatches on a criteria operator handles the same operator set (index filter builders, in-scan tag filters, inverted-index query builder, secondary-index tag filter); the trace-id part filter skips a part only when no requested id may be contained; block/primary-block time bounds are maintained as running min/max against their own accumulator, and a function that re-arms an accumulator's first-value guard also resets or consumes that accumulator (a part-level range is not restarted per primary block); the primary-block search of measure, stream and trace part iterators starts at the block that may hold the head of a straddling series (predicate: key <= first key; result n-1); the stream element index accumulates the id list and the timestamp list of every matching series together.",
+		NotDecided: "that the rows selected are exactly those satisfying the predicate, analyzer/tokenizer semantics of the inverted index, the block-level searches inside a primary block (findBlock).",
 		Technique:  "canonical symbolic expression equality between sibling functions (E8), relational world pruning on range endpoints, case-set agreement across packages, guarded accumulator updates",
 		Run:        runC08,
 	})
@@ -331,6 +331,80 @@ func runC08(c *core.Ctx) {
 		}
 		r.Floor(rule, 8)
 		_ = nRearm
+		for _, s := range sibsMST {
+			r.pbmSearchInclusive("c08.pbm-search-inclusive", s.pkg)
+		}
+		r.Floor("c08.pbm-search-inclusive", 3)
+
+		// stream element index: the matched element ids and the matched timestamps are accumulated together
+		if f := r.fn("c08.search-lists-together", sibS.pkg, "(*elementIndex).Search"); f != nil {
+			rule := "c08.search-lists-together"
+			construct := ssax.FuncName(f) + ": every series whose ids are merged into the result has its timestamps merged too"
+			var exec *ssa.Call
+			for _, in := range ssax.Find(f, ssax.CallTo("iface:(pkg/index.Filter).Execute")) {
+				exec = in.(*ssa.Call)
+			}
+			var pr, pt *ssa.Phi
+			for _, b := range f.Blocks {
+				for _, in := range b.Instrs {
+					if p, ok := in.(*ssa.Phi); ok {
+						if p.Comment == "result" && pr == nil {
+							pr = p
+						}
+						if p.Comment == "resultTS" && pt == nil {
+							pt = p
+						}
+					}
+				}
+			}
+			if exec == nil || pr == nil || pt == nil || pr.Block() != pt.Block() {
+				r.Undecide(rule, construct, r.fpos(f), "Execute call or the two accumulators not found in one loop")
+			} else {
+				part := func(v ssa.Value, i int) bool {
+					ex, ok := v.(*ssa.Extract)
+					return ok && ex.Tuple == ssa.Value(exec) && ex.Index == i
+				}
+				h := pr.Block()
+				bad := ""
+				n := iterationPaths(h, map[ssa.Value]bool{pr: true, pt: true}, func(path []*ssa.BasicBlock, resolve func(ssa.Value) ssa.Value) {
+					var er, et ssa.Value
+					for j, q := range h.Preds {
+						if q == path[len(path)-2] {
+							er, et = pr.Edges[j], pt.Edges[j]
+						}
+					}
+					took := [2]bool{part(resolve(er), 0), part(resolve(et), 1)}
+					for _, b := range path[:len(path)-1] {
+						for _, in := range b.Instrs {
+							c, ok := in.(*ssa.Call)
+							if !ok || !c.Call.IsInvoke() || c.Call.Method.Name() != "Union" || len(c.Call.Args) != 1 {
+								continue
+							}
+							for i := 0; i < 2; i++ {
+								if part(c.Call.Args[0], i) {
+									took[i] = true
+								}
+							}
+						}
+					}
+					if took[0] != took[1] && bad == "" {
+						var idx []int
+						for _, b := range path {
+							idx = append(idx, b.Index)
+						}
+						bad = fmt.Sprintf("on the iteration path %s the series' element ids are merged=%v but its timestamps merged=%v", blocksStr(idx), took[0], took[1])
+					}
+				})
+				switch {
+				case bad != "":
+					r.Violate(rule, construct, r.pos(exec), bad+": the time filter derived from the timestamp list then excludes blocks that hold matching elements of the later series")
+				case n == 0:
+					r.Undecide(rule, construct, r.fpos(f), "no iteration path")
+				default:
+					r.Hold(rule, construct, r.pos(exec), fmt.Sprintf("%d iteration paths", n))
+				}
+			}
+		}
 		r.Floor(rule2, 12)
 	}
 }
@@ -346,6 +420,112 @@ func rel(x int) string {
 		return ">"
 	}
 	return "="
+}
+
+// pbmSearchInclusive: searchPBM must start at the last primary block whose first key is < the wanted key
+// — a series (trace) may straddle a primary-block boundary, so the block BEFORE the first one that starts
+// with the key can hold its head. With sort.Search that means: predicate(i) ⇔ key ≤ first[i], result n-1.
+func (r *R) pbmSearchInclusive(rule, pkg string) {
+	f := r.fn(rule, pkg, "searchPBM")
+	if f == nil {
+		return
+	}
+	construct := ssax.FuncName(f) + ": starts at the block before the first one whose first key is >= the wanted key"
+	var search *ssa.Call
+	for _, in := range ssax.Find(f, ssax.CallTo("sort.Search")) {
+		search = in.(*ssa.Call)
+	}
+	if search == nil {
+		r.Undecide(rule, construct, r.fpos(f), "no sort.Search call (a different search would need its own reading)")
+		return
+	}
+	mc, ok := search.Call.Args[1].(*ssa.MakeClosure)
+	if !ok {
+		r.Undecide(rule, construct, r.pos(search), "predicate is not a function literal")
+		return
+	}
+	pred := mc.Fn.(*ssa.Function)
+	// truth of the predicate for key <, ==, > first[i]
+	isElem := func(v ssa.Value) bool {
+		u, ok := v.(*ssa.UnOp)
+		if !ok {
+			return false
+		}
+		fa, ok := u.X.(*ssa.FieldAddr)
+		if !ok {
+			return false
+		}
+		_, ok = fa.X.(*ssa.IndexAddr)
+		return ok
+	}
+	var eval func(v ssa.Value, rel int) (bool, bool)
+	eval = func(v ssa.Value, rel int) (bool, bool) {
+		switch x := v.(type) {
+		case *ssa.UnOp:
+			if x.Op == token.NOT {
+				t, ok := eval(x.X, rel)
+				return !t, ok
+			}
+		case *ssa.BinOp:
+			a := rel // key ? elem
+			switch {
+			case isElem(x.Y) && !isElem(x.X):
+			case isElem(x.X) && !isElem(x.Y):
+				a = -rel
+			default:
+				return false, false
+			}
+			switch x.Op {
+			case token.LSS:
+				return a < 0, true
+			case token.LEQ:
+				return a <= 0, true
+			case token.GTR:
+				return a > 0, true
+			case token.GEQ:
+				return a >= 0, true
+			case token.EQL:
+				return a == 0, true
+			case token.NEQ:
+				return a != 0, true
+			}
+		case *ssa.Call:
+			// strings.Compare(a, b) etc. are not used here; fall through to undecided
+		}
+		return false, false
+	}
+	rets := ssax.Find(pred, ssax.IsReturn)
+	if len(rets) != 1 || len(rets[0].(*ssa.Return).Results) != 1 {
+		r.Undecide(rule, construct, r.fpos(pred), "predicate has more than one return")
+		return
+	}
+	var tt [3]bool
+	for i, rel := range []int{-1, 0, 1} {
+		t, ok := eval(rets[0].(*ssa.Return).Results[0], rel)
+		if !ok {
+			r.Undecide(rule, construct, r.fpos(pred), "predicate is not a single comparison of the key with pbmIndex[i].<key>")
+			return
+		}
+		tt[i] = t
+	}
+	// result slice starts at n-1
+	lowOK := false
+	for _, in := range ssax.Find(f, func(in ssa.Instruction) bool { _, ok := in.(*ssa.Slice); return ok }) {
+		sl := in.(*ssa.Slice)
+		if bo, ok := sl.Low.(*ssa.BinOp); ok && bo.Op == token.SUB && bo.X == ssa.Value(search) {
+			if k, ok := bo.Y.(*ssa.Const); ok && k.Value != nil && k.Int64() == 1 {
+				lowOK = true
+			}
+		}
+	}
+	switch {
+	case tt != [3]bool{true, true, false}:
+		r.Violate(rule, construct, r.fpos(pred), fmt.Sprintf("predicate truth for key <,==,> first[i] is %v, want [true true false]: with a strict comparison the search lands on the last block that STARTS with the key and skips the previous block, whose tail holds the first blocks of that series", tt))
+	case !lowOK:
+		r.Violate(rule, construct, r.pos(search), "the result does not start at n-1")
+	default:
+		r.Hold(rule, construct, r.pos(search), "predicate ⇔ key ≤ first[i]; result pbmIndex[n-1:]")
+	}
 }
 
 // guardFields returns the receiver field paths read by a guard condition (g == 0, !g, g).
